@@ -641,6 +641,7 @@ def gen_stragglers(seed, params=None):
     """C17: threads that keep calling builder methods while / after the
     function the builder was passed to returns."""
     rng = random.Random(seed)
+    p_line = (params or {}).get('p_line', 0.0)
     funcs = {
         'Fz': {'kind': 'file', 'name': 'nFz', 'variants': [
             [['w', 'once']]]},
@@ -704,7 +705,7 @@ def gen_stragglers(seed, params=None):
     for b in range(rng.randint(2, 3)):
         st = {'op': 'build', 'root': 0, 'versions': {}, 'tags': ['C17']}
         if rng.random() < 0.85:
-            st['sched'] = gen_sched(rng, 2)
+            st['sched'] = gen_sched(rng, 2, p_line)
             if st['sched']['policy'] == 'sweep':
                 st['sched']['thread'] = rng.choice([0, 0, 1, 2])
                 st['sched']['at'] = rng.randint(0, 120)
@@ -779,7 +780,12 @@ def generate(profile, seed, params=None):
 
 # ----------------------------------------------------------------------
 # threads: independent operations issued from 2-3 threads on one builder
-def gen_sched(rng, n_threads=2):
+def gen_sched(rng, n_threads=2, p_line=0.0):
+    if rng.random() < p_line:
+        # line-level preemption inside the package (windows that contain
+        # neither a lock operation nor a file-system call)
+        return {'policy': 'random', 'seed': rng.randrange(1 << 30),
+                'p': rng.choice([0.01, 0.03, 0.08]), 'line': True}
     r = rng.random()
     if r < 0.45:
         return {'policy': 'random', 'seed': rng.randrange(1 << 30),
@@ -796,7 +802,8 @@ def gen_threads(seed, params=None):
     other, issued concurrently; history = builds (threaded), mutations of
     static inputs, unchanged rebuild, clean."""
     P = dict(p_same_key=0.0, p_fail=0.25, p_in_sub=0.3, p_crash_last=0.0,
-             p_tamper=0.3, p_seq_first=0.25, n_threads=(2, 4), p_in_file=0.2)
+             p_tamper=0.3, p_seq_first=0.25, n_threads=(2, 4), p_in_file=0.2,
+             p_line=0.0)
     if params:
         P.update(params)
     rng = random.Random(seed)
@@ -881,7 +888,7 @@ def gen_threads(seed, params=None):
     steps = []
     b1 = {'op': 'build', 'root': 0, 'versions': {}}
     if rng.random() >= P['p_seq_first']:
-        b1['sched'] = gen_sched(rng, nt)
+        b1['sched'] = gen_sched(rng, nt, P['p_line'])
     steps.append(b1)
     r = rng.random()
     if r < 0.5:
@@ -895,10 +902,10 @@ def gen_threads(seed, params=None):
         if muts:
             steps.append({'op': 'mutate', 'muts': muts})
     steps.append({'op': 'build', 'root': 0, 'versions': {},
-                  'sched': gen_sched(rng, nt)})
+                  'sched': gen_sched(rng, nt, P['p_line'])})
     if rng.random() < 0.5:
         steps.append({'op': 'build', 'root': 0, 'versions': {},
-                      'sched': gen_sched(rng, nt)})
+                      'sched': gen_sched(rng, nt, P['p_line'])})
     steps.append({'op': 'clean'})
     return {
         'profile': 'threads', 'seed': seed,
